@@ -136,10 +136,10 @@ Section Bound.
   Proof.
     apply parse_rel_mutind.
     - (* E_prefix *)
-      intros rbp r p its x mid u t rest Hops _ [IH1 S1] Hpre _ [IH2 S2].
-      rewrite items_size_cons. cbn [item_size]. split; [|lia].
+      intros rbp i r p its x mid u t rest Hop Hops _ [IH1 S1] Hpre _ [IH2 S2].
+      rewrite items_size_cons. pose proof (item_size_pos i). split; [|lia].
       eapply evb_weaken.
-      + eapply evb_S; [intro m; cbn; rewrite Hops; reflexivity|].
+      + eapply evb_S; [intro m; cbn; rewrite Hop, Hops; reflexivity|].
         eapply evb_bind; [eapply evb_bind; [exact IH1|]; cbn; rewrite Hpre; cbn; apply (evb_const _ 0)|].
         exact IH2.
       + lia.
